@@ -13,14 +13,14 @@ import vlib
 from vlib import Check, make_cfg, run_tlc, Infra
 
 PROP = "C14"
-INVS = ["Inv_NoAckedLoss", "Inv_NoAckedLossStrict", "Inv_Conservation", "Inv_BarrierClosesGap"]
+INVS = ["Inv_NoAckedLoss", "Inv_NoAckedLossStrict", "Inv_EveryAckedWrite", "Inv_Conservation", "Inv_BarrierClosesGap"]
 PROPS = ["Prop_FlushCovers"]
 
 
-def consts(clients, maxver, maxadmin, maxflush, barrier=False, closewaits=False, snapfails=True, capturewaits=True):
+def consts(clients, maxver, maxadmin, maxflush, barrier=False, closewaits=False, snapfails=True, capturewaits=True, droprace=False):
     return {"Clients": "<- " + clients, "MaxVer": maxver, "MaxAdmin": maxadmin, "MaxFlush": maxflush,
             "Barrier": "TRUE" if barrier else "FALSE", "CloseWaits": "TRUE" if closewaits else "FALSE",
-            "SnapFails": "TRUE" if snapfails else "FALSE", "CaptureWaits": "TRUE" if capturewaits else "FALSE"}
+            "SnapFails": "TRUE" if snapfails else "FALSE", "CaptureWaits": "TRUE" if capturewaits else "FALSE", "DropRace": "TRUE" if droprace else "FALSE"}
 
 
 def model_check(chk, name, c, timeout):
@@ -109,9 +109,9 @@ c_TClients == {%s}
 def validate_trace(path, clients):
     mc = TRACE_MC % ", ".join('"%s"' % c for c in clients)
     cfg = make_cfg("TraceSpec", {"Clients": "<- c_TClients", "MaxVer": 1000000, "MaxAdmin": 1000000, "MaxFlush": 1000000,
-                                 "Barrier": "FALSE", "CloseWaits": "FALSE", "SnapFails": "TRUE", "CaptureWaits": "TRUE"},
+                                 "Barrier": "FALSE", "CloseWaits": "FALSE", "SnapFails": "TRUE", "CaptureWaits": "TRUE", "DropRace": "FALSE"},
                    ["TInv_NoAckedLoss"], [], constraint="HighWater", postcondition="TraceAccepted")
-    r = run_tlc("MC_TraceWriter", "t.cfg", cfg_text=cfg, extra_files={"MC_TraceWriter.tla": mc}, workers=1, timeout=600,
+    r = run_tlc("MC_TraceWriter", "t.cfg", cfg_text=cfg, extra_files={"MC_TraceWriter.tla": mc}, workers=1, timeout=1800,
                 dfs=True, env_extra={"TRACE": path})
     return r
 
@@ -266,6 +266,11 @@ def run(tier):
     chk.cov["tlc_runs"].append({"config": "MC_Writer_gap_canary", "expected": "Inv_NoAckedLossStrict violated", "violated": rc.violated, "wall_s": round(rc.wall, 1)})
     if rc.violated != "Inv_NoAckedLossStrict":
         chk.infra.append("canary: with CaptureWaits=FALSE the specification must lose an acknowledged write, TLC said: %s %s" % (rc.violated, (rc.error or "")[:300]))
+    rc2 = run_tlc("MC_Writer", "MC_Writer_droprace_canary.cfg", cfg_text=make_cfg("SpecH", consts("c_Clients1", 1, 0, 0, snapfails=False, droprace=True),
+                                                                             ["Inv_EveryAckedWrite"], [], view="ViewH"), timeout=900)
+    chk.cov["tlc_runs"].append({"config": "MC_Writer_droprace_canary", "expected": "Inv_EveryAckedWrite violated", "violated": rc2.violated, "wall_s": round(rc2.wall, 1)})
+    if rc2.violated != "Inv_EveryAckedWrite":
+        chk.infra.append("canary: with DropRace=TRUE the specification must drop an acknowledged write, TLC said: %s %s" % (rc2.violated, (rc2.error or "")[:300]))
     # 2. forced schedules from complete TLC behaviours
     recs = corpus(chk, "MC_Writer_corpus", consts("c_Clients2", 1, 1, 0), timeout=1800)
     recs += corpus(chk, "MC_Writer_walks", consts("c_Clients2", 3, 2, 1), simulate=400 if quick else 4000, depth=60)
